@@ -1180,9 +1180,9 @@ func init() {
 		})
 	}
 	reg("C11", true, "configurations with global tokens, per-route overrides and admin tokens (or none); callers with no header, wrong scheme, empty, prefix/suffix/case variants, another route's token, several values (gRPC metadata), on every operation over HTTP, the Worker API methods and the Admin listing; token changes through reload; oracle: reference allowlist rule (route tokens replace global ones); unauthorised => 401/Unauthenticated and the listing unchanged", 6000, 120000)
-	reg("C04", false, "pull API part: leases kept and presented later (after expiry, re-lease, settlement) over HTTP single and batch and over the Worker API; oracle: 204/200 iff the model says the lease is current and unexpired, else 409/FailedPrecondition, the only other success being the idempotent answer to a duplicate of an ack / nack that succeeded on this node within its TTL (simulated clock walks across the 2 min window)", 4000, 100000)
+	reg("C04", false, "pull API part: leases kept and presented later (after expiry, re-lease, settlement) over HTTP single and batch and over the Worker API; oracle: 204/200 iff the model says the lease is current and unexpired, else 409/FailedPrecondition, the only other success being the idempotent answer to a duplicate of an ack / nack that succeeded on this node within its TTL (simulated clock walks across the 2 min window); faultretry: the store call of a single-lease ack / nack / dead-letter fails once and the consumer retries - the failed attempt is not answered 2xx and changes nothing, the retry settles a lease that is still current", 4000, 100000)
 	reg("C07", false, "pull part: payloads with NUL, 0xFF, invalid UTF-8, CRLF, empty, 300 bytes of 0x80; payload_b64 over HTTP and bytes over the Worker API must decode to the stored payload, headers equal, across redeliveries", 2500, 60000)
-	reg("C05", false, "pull part: dequeue through the Pull API returns min(batch', ready) items with batch' capped by pull_api.max_batch, lease TTL = request / default capped by max_lease_ttl", 2500, 60000)
+	reg("C05", false, "pull part: dequeue through the Pull API returns min(batch', ready) items with batch' capped by pull_api.max_batch, lease TTL = request / default capped by max_lease_ttl; a nack whose store call failed once and was retried puts the message back with its delay (faultretry)", 2500, 60000)
 	reg("C03", false, "pull API part: concurrent-in-time consumers over HTTP and the Worker API; every returned item was offerable in the model, fresh lease id, attempt+1", 2500, 60000)
 }
 
